@@ -218,10 +218,10 @@ PLAN['C14'] = {
 }
 
 
-def partial(name, acts, maxn, adds, stack=0, und=0, fr=0, rst=0, last=False, **kw):
+def partial(name, acts, maxn, adds, stack=0, und=0, fr=0, rst=0, last=False, minn=99, wideextra=0, **kw):
     st = {
         'kind': 'gen_replay', 'name': name, 'module': 'Partial', 'fam': 'partial', 'spec': 'Spec', 'view': 'View',
-        'constants': {'MaxN': maxn, 'MaxAdds': adds, 'MaxStack': stack, 'MaxUnd': und, 'MaxFr': fr, 'MaxRst': rst, 'Acts': S(acts), 'TrackLast': 'TRUE' if last else 'FALSE'},
+        'constants': {'MaxN': maxn, 'MaxAdds': adds, 'MaxStack': stack, 'MaxUnd': und, 'MaxFr': fr, 'MaxRst': rst, 'Acts': S(acts), 'TrackLast': 'TRUE' if last else 'FALSE', 'MinN': minn, 'WideExtra': wideextra},
         'invariants': ['TypeOK', 'BoundsOK'],
     }
     st.update(kw)
@@ -1132,3 +1132,17 @@ PLAN['C05']['stages'] = lambda tier, seed: _c05p(tier, seed) + (
 PLAN['C05']['rule'] += (' Partial forests (spec/Partial.tla): every block applied after any interleaving of remembering verifications, ingestions, '
                         'prunes, refused calls and undos must give the reference roots - also on an instance whose caller decodes every message into '
                         'the same buffers (the arguments of consecutive calls share their backing arrays).')
+
+
+# --------------------------------------------------------------------------- partial forests of 16 leaves (wide configuration)
+def partial_wide(tier):
+    q = tier == 'quick'
+    return partial('partial_wide', ['mod', 'undo'], 17, 0 if q else 1, stack=1, und=1, minn=16 if q else 15, wideextra=0 if q else 1, timeout=1800 if q else 10800)
+
+
+for _p in ('C06', 'C09'):
+    PLAN[_p]['stages'] = (lambda f: (lambda tier, seed: f(tier, seed) + [partial_wide(tier)]))(PLAN[_p]['stages'])
+    PLAN[_p]['rule'] += (' Stage partial_wide: wide configuration of spec/Partial.tla - every all-live forest of 16 (thorough: 15-16) leaves in which the '
+                         'instance remembers a run of consecutive leaves plus at most one more is an initial state; from each, every block that deletes '
+                         'one remembered leaf or the remembered leaves of one aligned subtree, and its undo (subtrees of four and more leaves collapsing '
+                         'next to remembered leaves, which 5-leaf forests do not have).')
